@@ -463,6 +463,12 @@ def sstr_method(it, o, name):
         parts.append(mk_str(cur))
         return parts
 
+    def replace(old, new, count=-1):
+        # one character by one character, all occurrences
+        if not (isinstance(old, str) and isinstance(new, str) and len(old) == 1 and len(new) == 1 and count == -1):
+            raise Unsupported('replace on symbolic text other than one character by one character')
+        return mk_str([sx.If(sx.Eq(x, ord(old)), ord(new), x) if is_sym(x) else (ord(new) if x == ord(old) else x) for x in items])
+
     def encode(encoding='utf-8', errors='strict'):
         enc = encoding.lower().replace('_', '-')
         for c in items:
@@ -521,7 +527,7 @@ def sstr_method(it, o, name):
             i += 1
         return mk_str(items[i:])
 
-    table = dict(upper=upper, split=split, encode=encode, startswith=startswith, endswith=endswith, count=count, join=join, rstrip=rstrip, lstrip=lstrip)
+    table = dict(upper=upper, split=split, replace=replace, encode=encode, startswith=startswith, endswith=endswith, count=count, join=join, rstrip=rstrip, lstrip=lstrip)
     if name not in table:
         raise Unsupported('method %s on symbolic text' % name)
     return table[name]
